@@ -414,7 +414,7 @@ struct Driver {
     return Finding::ok();
   }
   static std::string bar_sig(const std::string& sig0, const NestStat& ns, const oracle::Bar& b) {
-    return sig0 + (ns.nested_zero[b.birth] ? ",nested_sources" : ",plain_sources") + (b.death < 0 ? ",essential" : ",finite");
+    return sig0 + (ns.nested_zero[b.birth] ? ",nested_sources" : ",plain_sources");
   }
 
   // ---- stage 2: get_representative_cycle(bar) for every bar
@@ -491,7 +491,9 @@ struct Driver {
     oracle::Reduction red = oracle::reduce(F.cells, p, false);
     const std::vector<oracle::Bar>& bars = red.bars;
     NestStat ns = nest_stat(F.cells, p);
-    std::string sig0 = base_sig + ",after=" + phase;
+    // signature: flavour, field, [gapped ids], whether a removal happened earlier in the history; the phase goes to the detail
+    std::string sig0 = base_sig + (saw_removal ? ",after_removal" : ",no_removal");
+    c.log("observe after " + phase);
 
     std::map<int, GBar> gbar;  // birth -> the library's bar object
     if constexpr (kBarcode) {
@@ -549,7 +551,7 @@ struct Driver {
     omit_dim = r.chance(1, 2);
     size_t n0 = 6 + (size_t)r.below(c.thorough ? 46 : 34);
     bool batch = (U && U->simplicial && idmode == 0 && r.chance(1, 2));
-    base_sig = std::string(kRU ? "ru" : "chain") + (kZ2 ? ",z2" : (p == 2 ? ",zp_p2" : ",zp")) + ",ids=" + (idmode == 0 ? "implicit" : idmode == 1 ? "explicit_consecutive" : "explicit_gapped");
+    base_sig = std::string(kRU ? "ru" : "chain") + (kZ2 ? ",z2" : (p == 2 ? ",zp_p2" : ",zp")) + (idmode == 2 ? ",gapped_ids" : "");
     c.log(std::string("config ") + name + " class=" + clsname + (U ? "/" + U->name : "") + " p=" + vh::str(p) + " idmode=" + vh::str(idmode));
     c.count("class." + clsname); c.count("idmode." + vh::str(idmode)); c.count("p." + vh::str(p));
 
